@@ -40,6 +40,19 @@ Theorem C08_check_bbox :
 Proof. repeat split; [exact check_bbox_total | exact check_bbox_accepts_only_valid | exact check_bbox_rejects]. Qed.
 Print Assumptions C08_check_bbox.
 
+(* the check is reached from EVERY box format: what the input conversion accepts with check_validity has passed
+   check_bbox, hence (previous theorem) lies in the unit cube with positive extents *)
+Theorem C08_every_box_format_is_checked : forall b fmt r c s b',
+  convert_bbox_to_dicaugment b fmt r c s true = Ok b' ->
+  check_bbox b' = Ok tt /\
+  let '(x1, y1, z1, x2, y2, z2) := b' in
+  near_unit x1 /\ near_unit y1 /\ near_unit z1 /\ near_unit x2 /\ near_unit y2 /\ near_unit z2 /\ x1 < x2 /\ y1 < y2 /\ z1 < z2.
+Proof.
+  intros b fmt r c s b' E. pose proof (converted_boxes_are_checked _ _ _ _ _ _ E) as C. split; [exact C|].
+  exact (check_bbox_accepts_only_valid b' C).
+Qed.
+Print Assumptions C08_every_box_format_is_checked.
+
 Theorem C08_check_keypoint : forall k r c s,
   let '(x, y, z, a, sc) := k in
   (check_keypoint k r c s = Ok tt <->
